@@ -13,6 +13,9 @@ CONSTANTS
   BIds = {"nob"}
   XKs = {"", "b"}
   Rich = FALSE
+  Edges = FALSE
+  KSps = {"lower"}
+  MKs = {"k"}
   Depth = 1
   Emit = TRUE
 INVARIANTS InvNoPanic InvCompleteness InvSoundness InvValues InvHistoryIndependent InvClassesDisjoint PrintVec
